@@ -1328,7 +1328,7 @@ class _LyapunovOrbitContinuationService(_OrbitContinuationService):
         from hiten.algorithms.continuation.config import \
             OrbitContinuationConfig
         return OrbitContinuationConfig(
-            state=(SynodicState.X, SynodicState.Y),
+            state=(SynodicState.X,),
             stepper="secant",
         )
 
@@ -1343,13 +1343,8 @@ class _LyapunovOrbitContinuationService(_OrbitContinuationService):
         from hiten.algorithms.continuation.options import \
             OrbitContinuationOptions
         return OrbitContinuationOptions(
-            target=(
-                [self.initial_state[SynodicState.X], self.initial_state[SynodicState.Y]],
-                [self.initial_state[SynodicState.X] + 1.0, self.initial_state[SynodicState.Y] + 1.0]),
-            step=(
-                (1 - self.initial_state[SynodicState.X]) / (100 - 1),
-                (1 - self.initial_state[SynodicState.Y]) / (100 - 1),
-            ),
+            target=([self.initial_state[SynodicState.X]], [self.initial_state[SynodicState.X] + 1.0]),
+            step=((1 - self.initial_state[SynodicState.X]) / (100 - 1),),
             max_members=100,
             max_retries_per_step=50,
             step_min=1e-10,
